@@ -150,6 +150,7 @@ impl Scenario for C18 {
             "for every row except PackageListEntry no schedule or seed can change the outcome: those rows are seeded sampling, not what the technique is for",
             "std's RandomState keys are made a scheduled choice by interposing the weak getrandom symbol; one fresh thread per epoch",
             "case variants of Urgency keywords are not counted as 'outside the defined set' (Debian treats urgency case-insensitively)",
+            "values are assembled from components that do not imitate another variant's text form: a forwarded reference is not the word 'no' or 'not-needed', an origin text does not start with 'commit:' or a category word, a licence name is not empty, a profile name does not start with '!', a VCS branch is not bracketed or empty - two distinct values of these public types print alike there, which no reader can undo",
         ]
     }
     fn components() -> Value {
